@@ -2801,6 +2801,36 @@ theorem gen_updateVersion (o : V2.T_OperatorClaims) (a : V2.T_AccountClaims) (u 
 
 /-! ## C19: the decision logic of the version-1 `Decode(token, target)`, as translated -/
 
+/-- the version-1 header gate on the translated code: `parseHeaders` returns a header only if the segment decoded, the
+reader filled a `Header` without error and the version-1 `headerValid` holds of it (type `jwt` up to case, exactly the
+legacy algorithm name up to case — never the version-2 name) -/
+theorem v1_parseHeaders_accepts (opq : V1.Opq) (seg : Str) (h : V1.T_Header) (e : Bool)
+    (hp : Gen.Fn.V1.parseHeaders seg opq = some (some h, e)) :
+    e = false ∧ ∃ bytes, opq.decodeString seg = some (bytes, false) ∧
+      opq.json_UnmarshalHeader bytes { f_Type := [], f_Algorithm := [] } = (h, false) ∧
+      Jwt.V1.headerValid { typ := h.f_Type, alg := h.f_Algorithm } = true := by
+  unfold Gen.Fn.V1.parseHeaders at hp
+  rcases hd : opq.decodeString seg with _ | ⟨bytes, e1⟩
+  · simp [hd] at hp
+  cases e1
+  case true => simp [hd] at hp
+  simp only [hd, Option.pure_def, Option.bind_eq_bind, Option.bind_some, Bool.false_eq_true, if_false] at hp
+  rcases hu : opq.json_UnmarshalHeader bytes { f_Type := [], f_Algorithm := [] } with ⟨h', e2⟩
+  cases e2
+  case true => simp [hu] at hp
+  have hv := v1_headerValid h'.f_Type h'.f_Algorithm
+  simp only [hu, Bool.false_eq_true, if_false] at hp
+  cases hval : Jwt.V1.headerValid { typ := h'.f_Type, alg := h'.f_Algorithm }
+  · have : V1.Header_Valid h' = some true := by
+      have := hv; simp only [hval, Bool.not_false] at this; exact this
+    simp [this] at hp
+  · have : V1.Header_Valid h' = some false := by
+      have := hv; simp only [hval, Bool.not_true] at this; exact this
+    simp only [this, Option.bind_some, Bool.false_eq_true, if_false, Option.some.injEq, Prod.mk.injEq] at hp
+    obtain ⟨h1, h2⟩ := hp
+    subst h1
+    exact ⟨h2.symm, bytes, rfl, hu, hval⟩
+
 /-- one arm of the `switch p` of the v1 `Decode` (it knows the cluster role too) -/
 def prefixOk1 (opq : V1.Opq) (issuer : Str) (p : Int) : Bool :=
   (p == 0 && opq.nkeys_IsValidPublicAccountKey issuer) || (p == 112 && opq.nkeys_IsValidPublicOperatorKey issuer) ||
@@ -2859,7 +2889,7 @@ theorem v1_decode_accepts (opq : V1.Opq) (tok : Str) (t : V1.I_Claims)
     (h : V1.Decode tok (some t) opq = some false) :
     ∃ hd p s hdr t' sig,
       splitOn '.' tok = [hd, p, s] ∧
-      opq.parseHeaders hd = some (hdr, false) ∧
+      Gen.Fn.V1.parseHeaders hd opq = some (hdr, false) ∧
       opq.parseClaims p (some t) = some (some t', false) ∧
       opq.decodeString s = some (sig, false) ∧
       V1.I_Claims.Verify t' p sig opq = some true ∧
@@ -2879,7 +2909,7 @@ theorem v1_decode_accepts (opq : V1.Opq) (tok : Str) (t : V1.I_Claims)
     have h3 : ((((0 : Nat) + 1 + 1 + 1 : Nat) : Int) != 3) = false := by decide
     simp only [hsp, len, List.length_cons, List.length_nil, i0, i1, i2, h3, Option.pure_def, Option.bind_eq_bind,
       Option.bind_some, Bool.false_eq_true, if_false] at h
-    rcases hph : opq.parseHeaders hd with _ | ⟨hdr, e1⟩
+    rcases hph : Gen.Fn.V1.parseHeaders hd opq with _ | ⟨hdr, e1⟩
     · simp [hph] at h
     cases e1
     case true => simp [hph] at h
